@@ -5,8 +5,8 @@
    only: slot s of row i of the buffer holds cell (i, s + shift(i-1)) of the specification matrix. *)
 From Coq Require Import ZArith Bool Lia List.
 From DV Require Import Prelude Cost Grid Dtw DtwSpec DtwProps Engines CWps CFill CExpand CFillSim CLang CDistTie CDistSpec
-  Traceback TracebackC CTrace CTraceSim CTraceSpec Prune PyDistPrune CWpsCanon CWpsCanonEu CWpsKernel CWpsValue CWpsSpec CWpsSpecEu CExpW CWpsPrune CWpsSpecB CWpsSpecBEu CWpsValueB.
-From DVGen Require Import Gen_cwps Gen_cfill Gen_cwpsk Gen_cexpw.
+  Traceback TracebackC CTrace CTraceSim CTraceSpec Prune PyDistPrune CWpsCanon CWpsCanonEu CWpsKernel CWpsValue CWpsSpec CWpsSpecEu CExpW CWpsPrune CWpsSpecB CWpsSpecBEu CWpsValueB CParts.
+From DVGen Require Import Gen_cwps Gen_cfill Gen_cwpsk Gen_cexpw Gen_cparts.
 Import ListNotations.
 Open Scope Z_scope.
 
@@ -426,3 +426,50 @@ Lemma c_wps_eu_use_pruning_is_a_bound shiftf cub1 cub2 wps0 f1 zl1 f2 zl2 rdtw k
       (if nd =? 1 then cub1 else cub2) pn false zp1b zp1e zp2b zp2e false.
 Proof. reflexivity. Qed.
 End FinalEu.
+
+(* ------------------------------------------------------------------ from the settings struct *)
+(* `DTWWps p = dtw_wps_parts(l1, l2, settings);` and `dtw_wps_shift(&p, ri)`: the regenerated kernel takes the members
+   of p and the shift function as parameters (tools/cfun.py); this is the call with the regenerated dtw_wps_parts
+   (Gen_cparts.v) and dtw_wps_shift (Gen_cwps.v) put back *)
+Definition c_warping_paths_sq (ce ced1 ced2 : cost) (wps : list cost) (f1 : list Z) (zl1 : Z) (f2 : list Z) (zl2 : Z)
+  (rdtw keep pneg : bool) (nd : Z) (window md m p : Z) (oub : bool) (zp1b zp1e zp2b zp2e : Z) (prune : bool) : cret * list cost * bool :=
+  let '((ldiff, ldiffr, ldiffc, w, width, len, ri1, ri2, ri3, _, _, ms, mdB, pen), _) := c_dtw_wps_parts zl1 zl2 0 (Fin md) (Fin m) (Fin p) window in
+  c_dtw_warping_paths_ndim ce (fun ri => c_wps_shift ri ri2 ri3) ced1 ced2 wps f1 zl1 f2 zl2 rdtw keep pneg nd len
+    ldiff ldiffr ldiffc w width len ri1 ri2 ri3 ms mdB pen 0 oub zp1b zp1e zp2b zp2e prune.
+
+Section FromSettings.
+Variables (window p m mld md : Z) (psi : (nat * nat) * (nat * nat)).
+Hypothesis Hwin : 0 <= window.
+Hypothesis Hp : 0 <= p.
+Local Notation usq := (c_to_u (cs_of window p m mld psi SqEuclid)).
+Variables (s1 s2 : list point) (d : nat).
+Hypothesis Hd1 : forall q, In q s1 -> length q = d.
+Hypothesis Hd2 : forall q, In q s2 -> length q = d.
+Hypothesis H1 : (1 <= length s1)%nat.
+Hypothesis H2 : (1 <= length s2)%nat.
+Hypothesis Hp1 : (psi_1b usq <= length s1)%nat.
+Hypothesis Hp2 : (psi_2b usq <= length s2)%nat.
+Hypothesis Hpsi : (psi_1b usq < length s1)%nat \/ (psi_2e usq < length s2)%nat.
+Local Notation l1 := (Z.of_nat (length s1)).
+Local Notation l2 := (Z.of_nat (length s2)).
+
+Theorem c_warping_paths_sq_spec ce ced1 ced2 wps0 keep :
+  let W := cw_width l1 l2 window in
+  Z.of_nat (length wps0) = (l1 + 1) * W ->
+  exists wps',
+    c_warping_paths_sq ce ced1 ced2 wps0 (concat s1) l1 (concat s2) l2 true keep false (Z.of_nat d) window md m p false
+      (Z.of_nat (psi_1b usq)) (Z.of_nat (psi_1e usq)) (Z.of_nat (psi_2b usq)) (Z.of_nat (psi_2e usq)) false
+    = (RPlain (sq_repr keep (bounded (c_wps_bound SqEuclid md) (dtw_value usq s1 s2))), wps', true) /\
+    Z.of_nat (length wps') = (l1 + 1) * W /\
+    forall (i : nat) (s : Z), Z.of_nat i <= l1 -> 0 <= s < W ->
+      s + cw_shift l1 l2 window (Z.of_nat i - 1) <= l2 ->
+      (s + cw_shift l1 l2 window (Z.of_nat i - 1) = 0 -> Z.of_nat i <= cw_ri2 l1 l2 window) ->
+      exists v, aget wps' (Z.of_nat i * W + s) = sq_repr keep v /\
+                Q (c_wps_bound SqEuclid md) v (mget (wps_matrix usq s1 s2) i (Z.to_nat (s + cw_shift l1 l2 window (Z.of_nat i - 1)))).
+Proof.
+  intros W HL. unfold c_warping_paths_sq. rewrite c_wps_parts_sq.
+  pose proof (c_wps_kernel_bounded window p m mld psi Hwin s1 s2 d Hd1 Hd2 H1 H2 Hp1 Hp2 Hp Hpsi (c_wps_bound SqEuclid md)
+                ce ced1 ced2 wps0 keep 0 HL eq_refl) as HK.
+  rewrite adj_max_step_cs, adj_penalty_cs in HK. cbn [inner_val] in HK. exact HK.
+Qed.
+End FromSettings.
